@@ -62,7 +62,7 @@ def minimise(prop, tier, seed, binary, scratch, rp, rf, timeout, run_workers, ra
         sub = os.path.join(mdir, "run%d" % counter[0])
         os.makedirs(sub, exist_ok=True)
         try:
-            outs = run_workers(binary, jobs, sub, timeout, race=race)
+            outs = run_workers(binary, jobs, sub, timeout, race=race, deaths=[])
         except SystemExit:
             return [(False, None)] * len(cands)
         res = []
